@@ -140,8 +140,43 @@ func randBlob(r *Rng, nss [][]byte, maxLen int) genBlob {
 		g.ver = 1
 		g.signer = r.Bytes(20)
 	}
-	g.data = r.Bytes(sparseLen(r, maxLen))
+	g.data = patterned(r, sparseLen(r, maxLen))
 	return g
+}
+
+// patterned: random bytes in most cases, otherwise byte patterns that look like
+// share header fields (zero runs, 0xff runs, small big-endian numbers, info bytes)
+// so that payload can be mistaken for padding / sequence starts / reserved bytes.
+func patterned(r *Rng, n int) []byte {
+	b := r.Bytes(n)
+	switch r.Intn(10) {
+	case 0:
+		for i := range b {
+			b[i] = 0
+		}
+	case 1:
+		for i := range b {
+			b[i] = 0xff
+		}
+	case 2:
+		for i := range b {
+			b[i] = byte([]int{0, 0, 0, 1}[i%4])
+		}
+	case 3:
+		// zero runs of 4-40 bytes at random places and around share boundaries
+		for k := 0; k < 1+n/300; k++ {
+			pos := r.Intn(n)
+			if r.Bool(60) {
+				pos = pick(r, []int{458, 478}) + 482*r.Intn(1+n/482) - r.Intn(3)
+			}
+			for j := 0; j < 4+r.Intn(37) && pos+j < n; j++ {
+				if pos+j >= 0 {
+					b[pos+j] = 0
+				}
+			}
+		}
+	}
+	return b
 }
 
 // normalTx returns bytes that are not recognised as a BlobTx.  Random bytes can
@@ -180,6 +215,11 @@ func compactLen(r *Rng, max int) int {
 	return l
 }
 
+// shortInner: when set, some blob transactions carry a short inner transaction
+// (1-80 bytes) instead of the 329+4k byte mock PFB, so that several wrapped
+// PFBs share one compact share.  Only for properties that never deconstruct.
+var shortInner = false
+
 func blobTxOf(r *Rng, blobs []genBlob) []byte {
 	sizes := make([]uint32, len(blobs))
 	bs := make([]*share.Blob, len(blobs))
@@ -189,6 +229,13 @@ func blobTxOf(r *Rng, blobs []genBlob) []byte {
 	}
 	// the inner "PFB": 329 arbitrary bytes then the sizes (the repo's mock format)
 	inner := mockPFB(r.Bytes(mockPFBExtraBytes), sizes)
+	if shortInner && r.Bool(45) {
+		inner = r.Bytes(1 + r.Intn(80))
+		if r.Bool(30) {
+			// wrapped PFB ends within a few bytes of a compact share boundary
+			inner = r.Bytes(440 + r.Intn(40))
+		}
+	}
 	out, err := tx.MarshalBlobTx(inner, bs...)
 	if err != nil {
 		panic("harness: MarshalBlobTx: " + err.Error())
@@ -205,8 +252,36 @@ type genTx struct {
 // otherwise normals first).
 func randTxList(r *Rng, nNormal, nBlobTx int, maxBlobLen int, mixed bool, nss [][]byte) []genTx {
 	var normals, blobtxs []genTx
+	off := 0 // running length of the delimited stream of ordinary transactions
 	for i := 0; i < nNormal; i++ {
-		normals = append(normals, genTx{raw: normalTx(r, compactLen(r, 2000))})
+		l := compactLen(r, 2000)
+		room := 474 - off
+		if off >= 474 {
+			room = 478 - (off-474)%478
+		}
+		switch r.Intn(10) {
+		case 0, 1:
+			// end exactly on, or one byte past, the end of the current share
+			l = room - 2 + r.Intn(2)
+			if l < 128 {
+				l = room - 1 + r.Intn(2)
+			}
+		case 2:
+			// a length on a varint-width boundary; the next transaction then tends to be a boundary filler
+			l = pick(r, []int{127, 128, 129, 16383, 16384, 16385})
+		}
+		if l < 1 {
+			l = 1
+		}
+		t := normalTx(r, l)
+		off += len(t)
+		for v := len(t); ; v >>= 7 {
+			off++
+			if v < 128 {
+				break
+			}
+		}
+		normals = append(normals, genTx{raw: t})
 	}
 	for i := 0; i < nBlobTx; i++ {
 		k := 1
